@@ -579,6 +579,15 @@ func (ctx Ctx) methodExpr(call *ast.CallExpr) coq.Expr {
 			}
 			return ctx.newCoqCall("StringFromBytes", args)
 		}
+		if b, ok := ctx.typeOf(call).(*types.Basic); ok && b.Info()&types.IsInteger != 0 {
+			switch b.Kind() {
+			case types.Int, types.Uint64, types.Uint32, types.Uint8:
+			default:
+				// uint16, int32 (rune), ...: there is no such word size,
+				// and skipping the conversion would skip the truncation
+				ctx.unsupported(call, "conversion to %v", b)
+			}
+		}
 		// a different type conversion, which is a noop in GooseLang (which is
 		// untyped)
 		// TODO: handle integer conversions here, checking if call.Fun is an integer
